@@ -58,7 +58,8 @@ def store(kind, si, all_masks=True, nlist=1):
         if hasattr(o, "cryptographic_usage_masks"):
             o.cryptographic_usage_masks = list(M) if masks else []
         second = mk_obj("SecretData", uid=2, owner="alice", names=["s"], state=ST.ACTIVE, masks=list(M))
-    return [o, second]
+        wrapper = mk_obj("SymmetricKey", uid=3, owner="alice", names=["w"], state=ST.ACTIVE, masks=[M.WRAP_KEY])
+    return [o, second, wrapper]
 
 
 UIDS = ["1", "2", "9", None]          # stored object, second object, unknown, absent (placeholder is None)
@@ -77,17 +78,24 @@ def simple(op, kind, version):
         """
         post: _
         """
-        if not (0 <= si < 4 and 0 <= ui < len(UIDS) and 0 <= a < 8 and 0 <= b < 4):
+        if not (0 <= si < 4 and 0 <= ui < len(UIDS) and 0 <= a < 8 and 0 <= b < 6):
+            return True
+        if op != "GET" and b >= 4:
             return True
         e, s = mk_engine(store(kind, si, masks), version=version, crypto=P.RecordingCrypto())
         uid = UIDS[ui]
         if op == "GET":
             if not (a < len(fmts)):
                 return True
-            # a *successful* wrap deep-copies the pie object, which only works for instances
-            # loaded by a real session: the wrapping key offered here is never a usable one
-            wrap = [None, "2", "9", None][b]
+            # wrapping key: none / an object that is not a key / unknown / none / a usable one (Active,
+            # WrapKey bit) / a usable one named without cryptographic parameters
+            wrap = None
+            for k_, w_ in enumerate([None, "2", "9", None, "3", "3"]):
+                if b == k_:
+                    wrap = w_
             payload = P.mk(op, uid, version=version, key_format_type=fmts[a], wrap_uid=wrap)
+            if b == 5:
+                payload.key_wrapping_specification.encryption_key_information.cryptographic_parameters = None
         elif op == "GET_ATTRIBUTES":
             names = [None, [], ["Name"], ["x-custom"], ["Name", "x-custom", "State"], ["Link"],
                      ["Operation Policy Name"], ["Sensitive", "Digest"]][a]
